@@ -97,11 +97,20 @@ func newSession(svr *Server, conn websocket.Conn, channelID string) *Session {
 	return session
 }
 
-// 设置rtp数据通道
-func (s *Session) setDataChannel(dc websocket.Conn) {
+// joinDataChannel answers the JOIN of a data channel and attaches the channel to
+// the session in one step. A client that has read the answer may complete PLAY
+// at once; were the channel attached only afterwards, Consume would find no data
+// channel and drop what is published in between. Consume takes the same lock, so
+// media neither overtakes nor interleaves with the answer on that connection.
+func (s *Session) joinDataChannel(dc websocket.Conn, answer []byte) error {
 	s.lockW.Lock()
+	defer s.lockW.Unlock()
+	if _, err := dc.TextTransport().Write(answer); err != nil {
+		return err
+	}
+	verifPoint("join.answered", dc)
 	s.dataChannel = dc
-	s.lockW.Unlock()
+	return nil
 }
 
 // Addr Session地址
